@@ -58,6 +58,16 @@ SCHEMA = {
                            'alignedPairs': LIST(PAIR)},
     'AlignmentSegmentsWithResolvedConflicts': {'segments': LIST(SEG)},
     'MultipleAlignmentResultRowsMessage': {'messages': LIST(OBJ('AlignmentResultRowMessage'))},
-    '_WorkflowCoordinator': {'peaksSelector': OBJ('PeaksSelector'), 'dispatcher': OBJ('Dispatcher'), 'aligner': OBJ('Aligner')},
+    '_WorkflowCoordinator': {'peaksSelector': OBJ('PeaksSelector'), 'dispatcher': OBJ('Dispatcher'), 'aligner': OBJ('Aligner'), 'args': OBJ('Args'),
+                             'primaryGenerator': OBJ('SequenceGenerator'), 'secondaryGenerator': OBJ('SequenceGenerator')},
+    '_MultiPassWorkflowCoordinator': {'xmapReader': OBJ('XmapReader')},
+    'Aligner': {'scorer': OBJ('AlignmentPositionScorer'), 'segmentsFactory': OBJ('AlignmentSegmentsFactory'), 'alignmentEngine': OBJ('AlignerEngine'),
+                'segmentConflictResolver': OBJ('AlignmentSegmentConflictResolver')},
+    'AlignmentSegmentConflictResolver': {'segmentChainer': OBJ('SegmentChainer')},
+    'WorkflowCoordinatorFactory': {'args': OBJ('Args'), 'dispatcher': OBJ('Dispatcher'), 'xmapReader': OBJ('XmapReader')},
+    'Args': {'primaryResolution': INT, 'primaryBlur': INT, 'secondaryResolution': INT, 'secondaryBlur': INT, 'secondaryMargin': INT,
+             'minPeakDistance': INT, 'maxPairDistance': REAL, 'peakHeightThreshold': REAL, 'perfectMatchScore': REAL, 'distancePenaltyMultiplier': REAL,
+             'unmatchedPenalty': REAL, 'minScore': REAL, 'breakSegmentThreshold': REAL, 'maxDifference': REAL, 'peaksCount': INT, 'outputMode': STR,
+             'segmentJoinMultiplier': REAL, 'sequentialityScore': INT, 'numberOfCpus': OPT(INT), 'disableProgressBar': BOOL},
     'SequenceGenerator': {'resolution': INT, 'blurRadius': INT},
 }
